@@ -384,6 +384,26 @@ def _bitvec(t, path, w, depth):
                 if op.startswith("Add") and all(p_ == 0 or q_ == 0 for p_, q_ in zip(xa, xb)):
                     # no position where both can be 1: the sum has no carries, it is the bitwise or
                     return [q_ if p_ == 0 else p_ for p_, q_ in zip(xa, xb)]
+                if op.startswith("Sub"):
+                    # x - (x & m) / x - (x % 2^k) with the very same term x (whatever its bits are): x & !m
+                    sb_ = b
+                    while sb_[0] in ("w",) and isinstance(sb_[1], tuple):
+                        sb_ = sb_[1]
+                    sa_ = a
+                    while sa_[0] in ("w",) and isinstance(sa_[1], tuple):
+                        sa_ = sa_[1]
+                    m_ = None
+                    if sb_[0] == "bin" and sb_[1] == "BitAnd" and is_int(sb_[3]):
+                        inner_ = sb_[2]
+                        m_ = sb_[3][1]
+                    elif sb_[0] == "bin" and sb_[1] == "Rem" and is_int(sb_[3]) and sb_[3][1] > 0 and sb_[3][1] & (sb_[3][1] - 1) == 0:
+                        inner_ = sb_[2]
+                        m_ = sb_[3][1] - 1
+                    if m_ is not None:
+                        while inner_[0] in ("w",) and isinstance(inner_[1], tuple):
+                            inner_ = inner_[1]
+                        if inner_ == sa_:
+                            return [0 if (m_ >> i_) & 1 else xa[i_] for i_ in range(bits)]
                 if op.startswith("Sub") and all(q_ == 0 or (q_ is not None and q_ == p_) for p_, q_ in zip(xa, xb)):
                     # y = x & m (every bit of y is 0 or the same bit of x): x - y = x & !m, no borrows
                     return [p_ if q_ == 0 else 0 for p_, q_ in zip(xa, xb)]
@@ -672,6 +692,13 @@ class Interp:
             if k == "agg":
                 return v
             return ("vfield_base", v, vidx)
+        if tag in ("ci", "i") and k in ("deref", "w") and isinstance(v[1], tuple):
+            # a slice view of a known array (`match v.as_slice() { &[a, b] => .. }`): the same elements
+            inner_ = v
+            while inner_[0] in ("deref", "w") and isinstance(inner_[1], tuple):
+                inner_ = inner_[1]
+            if inner_[0] == "agg" and inner_[1] == "array":
+                return self.project(path, inner_, e)
         if tag == "ci" and k == "agg" and v[1] == "array" and len(e) >= 4:
             off = e[1]
             idx_ = len(v[3]) - off if e[3] else off
@@ -736,6 +763,16 @@ class Interp:
             return ("ovl", base, tuple(sorted(items.items(), key=lambda kv: str(kv[0]))))
         if tag == "d":
             return self.update(path, cur, rest, val)
+        if tag in ("ci", "i") and cur[0] == "agg" and cur[1] == "array":
+            idx_ = None
+            if tag == "ci" and len(e) >= 4:
+                idx_ = len(cur[3]) - e[1] if e[3] else e[1]
+            elif tag == "i" and len(e) > 2:
+                idx_ = self.decide(path, e[2])
+            if idx_ is not None and 0 <= idx_ < len(cur[3]):
+                fields = list(cur[3])
+                fields[idx_] = self.update(path, fields[idx_], rest, val)
+                return ("agg", cur[1], cur[2], tuple(fields))
         return TOP("upd")
 
     def loc_of(self, path, frame, place):
@@ -1213,7 +1250,7 @@ class Interp:
                 loops = self.loops_of(body)
                 lp = loops.get(bb)
                 if lp is not None:
-                    if n < self.widen_at or (n < 200 and path.tags.get(("concrete_loop", frame.fid))):
+                    if n < self.widen_at or (n < 200 and path.tags.get(("concrete_loop", frame.fid, bb))):
                         pass  # still unrolling precisely (always, for a loop driven by an iterator over known elements)
                     elif n == self.widen_at:
                         # widen: forget everything the loop body assigns, run one generic iteration
@@ -1476,6 +1513,24 @@ class Interp:
         self.write_place(path, frame, t["dest"], val)
         return t["t"]
 
+    def mark_concrete_loop(self, path, frame, t):
+        """the innermost loop around this call is driven by an iterator over known elements: it is unrolled exactly (other
+        loops of the same function keep being widened)"""
+        body = frame.body
+        idx = None
+        for i_, blk in enumerate(body["blocks"]):
+            if blk["term"] is t:
+                idx = i_
+                break
+        if idx is None:
+            return
+        best = None
+        for h_, lp in self.loops_of(body).items():
+            if idx in lp["nodes"] and (best is None or len(lp["nodes"]) < len(self.loops_of(body)[best]["nodes"])):
+                best = h_
+        if best is not None:
+            path.tags[("concrete_loop", frame.fid, best)] = True
+
     def _opaque_cont(self, path, frame, t, name, args, depth, havoc=True):
         """generator form of _opaque for use inside summaries: the call stays opaque, execution goes on behind it"""
         nb = self._opaque(path, frame, t, name, args, depth, havoc)
@@ -1632,11 +1687,23 @@ class Interp:
         if shortn == "next" and len(args) == 1 and args[0][0] == "ref" and "Iterator" in (t["f"].get("def") or name):
             itv = self.read_loc(path, args[0][1])
             if itv[0] == "citer":
-                path.tags[("concrete_loop", frame.fid)] = True
+                self.mark_concrete_loop(path, frame, t)
                 if itv[1]:
                     self.write_loc(path, args[0][1], ("citer", itv[1][1:]))
                     return self._multi(path, frame, t, [(SOME(itv[1][0]), path)], depth)
                 return self._multi(path, frame, t, [(NONE, path)], depth)
+        # --- iter_mut over an array held in a location: references to its element places
+        if shortn == "iter_mut" and len(args) == 1 and args[0][0] == "ref":
+            loc_ = args[0][1]
+            v_ = self.read_loc(path, loc_)
+            for _ in range(3):
+                if v_[0] == "ref":
+                    loc_ = v_[1]
+                    v_ = self.read_loc(path, loc_)
+            if v_[0] == "agg" and v_[1] == "array" and len(v_[3]) <= 64:
+                n_ = len(v_[3])
+                elems = tuple(("ref", (loc_[0], tuple(loc_[1]) + (("ci", i_, n_, False),)), True) for i_ in range(n_))
+                return self._multi(path, frame, t, [(("citer", elems), path)], depth)
         # --- iterator chains over arrays whose elements are known: ('citer', elements)
         if shortn in ("iter", "into_iter") and len(args) == 1:
             v = self._deref_all(path, args[0])
@@ -1943,6 +2010,21 @@ class Interp:
                         self.assume_cond(path, ov, 1)
                     outs.append((NONE, path))
                 return self._multi(path, frame, t, outs, depth)
+            if meth in ("overflowing_div", "overflowing_rem"):
+                op = "Div" if meth.endswith("div") else "Rem"
+                path.events.append(("divop", op, a, b, bits, signed))
+                z = self.binop(path, "Eq", b, INT(0, bits), 8, signed)
+                if self.decide(path, z) is None:
+                    path.events.append(("assert", "DivisionByZero" if op == "Div" else "RemainderByZero", None, {"a": b},
+                                        F.site_str(frame.body, t["sp"]), frame.body["path"], z, len(path.conds), ""))
+                val = self.binop(path, op, a, b, bits, signed)
+                if signed:
+                    # overflows only for MIN / -1 (the result then wraps to MIN, the remainder is 0)
+                    ovf = self.binop(path, "BitAnd", self.binop(path, "Eq", a, INT(1 << (bits - 1), bits), 8, False),
+                                     self.binop(path, "Eq", b, INT(mask(bits), bits), 8, False), 8, False)
+                else:
+                    ovf = INT(0, 8)
+                return self._multi(path, frame, t, [(("agg", "tuple", None, (val, ovf)), path)], depth)
             if meth in ("wrapping_div", "wrapping_rem"):
                 op = "Div" if meth.endswith("div") else "Rem"
                 path.events.append(("divop", op, a, b, bits, signed))
@@ -2067,6 +2149,29 @@ class Interp:
         if self.concrete_ranges and name.endswith("::into_iter") and len(args) == 1 and args[0][0] == "agg" \
                 and args[0][1] == "adt:std::ops::Range":
             return self._multi(path, frame, t, [(args[0], path)], depth)
+        # --- array::from_fn(|i| ..): the closure applied to 0..N
+        if name in ("std::array::from_fn", "core::array::from_fn") and len(args) == 1:
+            ga_ = t["f"].get("gargs") or []
+            n_ = next((int(g_) for g_ in ga_ if str(g_).isdigit()), None)
+            if n_ is not None and n_ <= 32:
+                def gen_fromfn():
+                    states = [(path, ())]
+                    for i_ in range(n_):
+                        nxt = []
+                        for p_, acc_ in states:
+                            res_ = self._call_closure_value(p_, frame, t, args[0], [INT(i_, 64)], depth, "from_fn")
+                            if res_ is None:
+                                yield from self._opaque_cont(p_, frame, t, name, args, depth, havoc=True)
+                                return
+                            for o_ in res_:
+                                if o_.kind == "return":
+                                    nxt.append((o_.path, acc_ + (o_.value,)))
+                                else:
+                                    yield o_
+                        states = nxt
+                    for p_, acc_ in states:
+                        yield from self.cont(frame, t, p_, ("agg", "array", None, acc_), depth)
+                return gen_fromfn()
         # --- slice::from_ref(&x) / array::from_ref: a one-element view
         if name in ("std::slice::from_ref", "core::slice::from_ref", "std::array::from_ref", "core::array::from_ref",
                     "std::slice::from_mut", "core::slice::from_mut") and len(args) == 1:
@@ -2420,6 +2525,18 @@ class Interp:
                 return None
             if depth >= self.max_depth or fb.get("coroutine"):
                 return None
+            if self.intercept is not None:
+                # a function value called through a pointer is still that function: the rule's primitives apply
+                r_ = self.intercept(self, path, frame, t, fb["path"], list(cargs))
+                if r_ is not None:
+                    outs_ = []
+                    for x_ in r_:
+                        if x_[0] == "panic":
+                            outs_.append(Outcome("panic", None, x_[3], site=F.site_str(frame.body, t["sp"]), cls=x_[1],
+                                                 stack=frame.stack(), msg=x_[2]))
+                        else:
+                            outs_.append(Outcome("return", x_[0], x_[1]))
+                    return outs_
             return list(self.call_body(fb, list(cargs), path, frame, depth + 1))
         if clos[0] != "agg" or not clos[1].startswith("closure:"):
             return None
